@@ -2,6 +2,15 @@ package main
 
 // Bounded stand-ins, structural (dataflow) obligations and replay.
 
+import (
+	"encoding/json"
+	"fmt"
+	"os"
+	"os/exec"
+	"path/filepath"
+	"strings"
+)
+
 type extraFailure struct {
 	Name    string
 	Reason  string
@@ -23,8 +32,126 @@ type replayResult struct {
 	text      string
 }
 
+func goEnv() []string {
+	return append(os.Environ(), "GOFLAGS=-mod=mod", "GOPROXY=off", "GOSUMDB=off", "GOTOOLCHAIN=local")
+}
+
 func runExtras(eng *Engine, id, tier string, seed int64, work string) []extraResult {
-	return nil
+	var res []extraResult
+	switch id {
+	case "C01":
+		res = append(res, runBoundedCurves(eng, work, id, []string{"decode8.", "decode16.within", "decode16.strictly", "decode.zero", "decode.max"}))
+	case "C02":
+		res = append(res, runBoundedCurves(eng, work, id, []string{"encode"}))
+	case "C14":
+		res = append(res, runBoundedCurves(eng, work, id, []string{"decode16.below-identity-margin"}))
+	}
+	return res
+}
+
+// runBoundedCurves injects /verif/bounded/curves_test.go.tmpl into the three curve packages
+// with -overlay and runs the real code over the complete table domains.
+func runBoundedCurves(eng *Engine, work, id string, prefixes []string) extraResult {
+	r := extraResult{}
+	tmpl, err := os.ReadFile(filepath.Join(verifDir, "bounded", "curves_test.go.tmpl"))
+	if err != nil {
+		// fall back to the installed location when VCGO_VERIF points at a scratch dir
+		tmpl, err = os.ReadFile("/verif/bounded/curves_test.go.tmpl")
+	}
+	if err != nil {
+		r.Obligations = 1
+		r.Failures = append(r.Failures, extraFailure{Name: "bounded.curves#setup", Reason: "harness template missing", Detail: err.Error()})
+		return r
+	}
+	pkgs := []string{"srgb", "adobergb", "prophotorgb"}
+	overlay := map[string]map[string]string{"Replace": {}}
+	for _, p := range pkgs {
+		src := strings.ReplaceAll(string(tmpl), "@PKG@", p)
+		f := filepath.Join(work, "bounded_"+p+"_test.go")
+		os.WriteFile(f, []byte(src), 0o644)
+		overlay["Replace"][filepath.Join(eng.repoDir, p, "vcgo_bounded_test.go")] = f
+	}
+	ovb, _ := json.Marshal(overlay)
+	ovf := filepath.Join(work, "overlay_bounded.json")
+	os.WriteFile(ovf, ovb, 0o644)
+	type out struct {
+		Package     string `json:"package"`
+		Evaluations int64  `json:"evaluations"`
+		Failures    []struct {
+			Check string `json:"check"`
+			Index int    `json:"index"`
+			Got   string `json:"got"`
+		} `json:"failures"`
+	}
+	total := int64(0)
+	var domains []interface{}
+	type job struct {
+		pkg    string
+		output string
+		err    error
+		res    out
+		have   bool
+	}
+	jobs := make([]*job, len(pkgs))
+	done := make(chan int, len(pkgs))
+	for i, p := range pkgs {
+		jobs[i] = &job{pkg: p}
+		go func(i int, p string) {
+			outf := filepath.Join(work, "bounded_"+p+".json")
+			cmd := exec.Command("go", "test", "-overlay", ovf, "-vet=off", "-count=1", "-timeout", "900s", "-run", "TestVcgoBoundedCurves", "./"+p)
+			cmd.Dir = eng.repoDir
+			cmd.Env = append(goEnv(), "VCGO_BOUNDED_OUT="+outf)
+			b, err := cmd.CombinedOutput()
+			jobs[i].output = string(b)
+			jobs[i].err = err
+			if jb, e2 := os.ReadFile(outf); e2 == nil {
+				if json.Unmarshal(jb, &jobs[i].res) == nil {
+					jobs[i].have = true
+				}
+			}
+			done <- i
+		}(i, p)
+	}
+	for range pkgs {
+		<-done
+	}
+	for _, j := range jobs {
+		r.Obligations++
+		if !j.have {
+			r.Failures = append(r.Failures, extraFailure{Name: "bounded.curves." + j.pkg + "#run", Reason: "bounded harness did not complete", Detail: firstLines(j.output, 30)})
+			continue
+		}
+		total += j.res.Evaluations
+		bad := false
+		for _, f := range j.res.Failures {
+			match := false
+			for _, pre := range prefixes {
+				if strings.HasPrefix(f.Check, pre) {
+					match = true
+				}
+			}
+			if !match {
+				continue
+			}
+			bad = true
+			r.Failures = append(r.Failures, extraFailure{Name: fmt.Sprintf("bounded.curves.%s#%s", j.pkg, f.Check),
+				Reason:  "table entry violates the published curve (exact rational oracle) on the real code",
+				Detail:  fmt.Sprintf("package %s check %s index %d value %s", j.pkg, f.Check, f.Index, f.Got),
+				Witness: true})
+		}
+		if !bad {
+			r.Discharged++
+		}
+		domains = append(domains, map[string]interface{}{"package": j.pkg, "evaluations": j.res.Evaluations})
+	}
+	r.Bounded = map[string]interface{}{
+		"name": "curve tables vs published transfer functions", "label": "bounded (execution of the real code, not deduction)",
+		"domain": "complete: 256+65536 decode codes and 512+65536 encode table sample points per curve package",
+		"exhaustive": true, "evaluations": total, "checks": prefixes, "per_package": domains,
+		"oracle": "exact rational arithmetic (math/big), independent of math.Pow",
+	}
+	r.Samples = append(r.Samples, map[string]interface{}{"bounded": "srgb.From16Bit(i) vs ((i/65535+0.055)/1.055)^(12/5) within 3e-7 for every i"})
+	return r
 }
 
 func tryReplay(eng *Engine, o *Obligation, dir string) replayResult {
@@ -32,5 +159,11 @@ func tryReplay(eng *Engine, o *Obligation, dir string) replayResult {
 }
 
 func runReplay(repo, path string) int {
+	b, err := os.ReadFile(path)
+	if err != nil {
+		fmt.Println("cannot read replay file:", err)
+		return 2
+	}
+	fmt.Println(string(b))
 	return 0
 }
